@@ -13,6 +13,31 @@ NOTE_COMMON = ("Trusted: Lean 4.33 kernel; axioms propext/Classical.choice/Quot.
                "double arithmetic is exact (float residue, DESIGN §3.1/§6).")
 
 CLAIMS = {
+    "C07": dict(
+        category="proof", design_ref="§7 C07, Appendix A.4",
+        technique="Lean 4 refinement theorem toMs_sem_partial: the model of to_ms refines an independent backwards-time ms interpreter (sizes, migration step function, lineage movements, population numbering) + differential correspondence and the interpreter run on the real output",
+        text=("Kernel-checked theorems toMs_rejects / toMs_accepts (exactly the graphs with a linear epoch or a multi-source pulse raise), toMs_structure (-I header, deme order = population "
+              "order, times / 4N0, stable order), toMs_sizes with en_followed_by_eg (per-population size and growth segments; the repaired sawtooth defect F3), toMs_migrations (for every "
+              "ordered pair and every time the rate in force is 4N0 x the graph's), toMs_numbering (the static numbering of -es/-ej pairs equals ms's dynamic 'current count + 1'), "
+              "toMs_sem_parts and toMs_sem_partial: for EVERY valid ms-expressible graph whose ancestry proportions sum to exactly 1, every N0 > 0 and every well-formed sample list, the "
+              "emitted command interpreted by the independent interpreter (Spec/C07Sem.msSemG) denotes the graph's demography (sizes, migration rates, movement matrices on each deme's "
+              "lifetime, zero inflow outside it). toMs_sem_counterexample: with proportions summing to 1+2^-40 (accepted by validation) to_ms renormalises, so movements differ by ~1e-12 — "
+              "the hypothesis ExactProportions is necessary (an interpretation matter, DESIGN §9). Model tied to to_ms by exact comparison of the emitted token list (growth rates symbolic, "
+              "compared at 1e-9); the interpreter is run on the REAL output and compared with the graph's semantics."),
+        note=NOTE_COMMON + " math.log/exp are symbolic in the Model (Sz, Growth); number printing is below the Model. The ms manual is not available offline: the interpreter encodes the semantics described in DESIGN §7/§9."),
+    "C08": dict(
+        category="proof", design_ref="§7 C08",
+        technique="Lean 4 theorems over a state-machine model of from_ms/build_graph (validity of every returned graph, ignored options, population/name correspondence, stage refinement lemmas to an independent ms interpreter, counterexamples for the known findings) + differential correspondence and the interpreter run on the real results",
+        text=("Kernel-checked theorems fromMs_valid_all (EVERY graph from_ms returns, with or without deme_names, is accepted by Spec.validGraph — after the repair of F8 and F23), "
+              "fromMs_renameOK / fromMs_bad_names_rejected, fromMs_ignores_option / fromMs_ignores_samples (unknown options and -I sample counts have no effect), "
+              "fromMs_deme_k_is_population_k / fromMs_names, and the stage refinement lemmas build_sizes, final_sizes, build_migrations, build_movements_matrix, fromMs_sizes, fromMs_migrations "
+              "(for every command: at the end of the event loop each population's size function, growth, migration rates and per-time-group movement matrix equal the independent "
+              "interpreter's). The full semantic theorem is FALSE on the unchanged tree: fromMs_order_counterexample (F4), fromMs_split_of_new_population_counterexample (F5), "
+              "fromMs_interleaved_pairs_counterexample (F21), fromMs_join_chain_counterexample (F22), fromMs_split_p0_counterexample (F6b) are proved on the concrete commands (known "
+              "findings); the assembled fromMs_sem_partial on the defect-free fragment is not proved (the links applyParams -> ancestry/pulses, addMigrationsFromMatrices, post-processing and "
+              "read-back are covered by the differential only). Model tied to from_ms by exact comparison of accept/reject and the resolved graph on thousands of commands per run (all orders "
+              "of same-time options; exhaustive small scope in the thorough tier); Spec.MsSem.msSem(command) is compared with the real graph's semantics on every accepted command."),
+        note=NOTE_COMMON + " PARTIAL: the end-to-end semantic refinement rests on stage lemmas + correspondence + the Spec interpreter run on the real results. Reading of -eM/-ema after a join per DESIGN §9."),
     "C09": dict(
         category="proof", design_ref="§7 C09",
         technique="Lean 4 theorems over a hand-written model of ms.py's option records, printer and argparse layer (print/parse round trip for every option kind relative to an explicit number-codec hypothesis) + differential correspondence and semantic round-trip comparison through an independent ms interpreter",
@@ -117,20 +142,22 @@ CLAIMS = {
         text=("Kernel-checked theorem resolve_valid: for EVERY document d, if the Model of Graph.fromdict returns a graph g then the independent validator "
               "Spec.validGraph accepts g (all clauses V0-V13: name index, unique identifier names, ancestors earlier/alive, proportions, contiguous epochs, sizes, "
               "migrations/pulses in coexistence intervals, at most one migration per ordered pair, ingress <= 1 at ALL times (resolve_ingress_all_times), pulses "
-              "sorted); corollaries load_valid, loadAll_valid (any text codec), resolve_inGenerations_valid, resolve_rename_valid. The Model is tied to the code by "
+              "sorted); corollaries load_valid, loadAll_valid (any text codec), resolve_inGenerations_valid, resolve_rename_valid, resolve_renameChecked_valid (EVERY renaming that rename_demes accepts, after the repair of F23) and fromMs_valid_all (every graph from_ms returns). The Model is tied to the code by "
               "exact comparison of accept/reject, resolved dictionary and name index on generated documents and rule-targeted mutants through dict/YAML/JSON/Builder "
               "routes, the field/validator tables are regenerated from the source AST and proved equal to the Model's, and Spec.validGraph is evaluated on every "
               "graph the real library returns (incl. in_generations, rename_demes)."),
-        note=NOTE_COMMON + " from_ms graphs are covered by the C08 check once the ms Model lands; non-ASCII identifiers and bool-as-number are outside the exact stream."),
+        note=NOTE_COMMON + " non-ASCII identifiers and bool-as-number are outside the exact stream."),
     "C03": dict(
         category="proof", design_ref="§7 C03",
-        technique="Lean 4 theorems (resolve_valid: acceptance implies every rule; resolve_asdict: no spurious rejection of fully-resolved documents; tables_* regenerated from the source) + differential accept/reject correspondence on rule-targeted mutants",
-        text=("The '=>' direction is the kernel-checked theorem resolve_valid (whatever the Model of Graph.fromdict accepts satisfies every rule of the data model, for "
-              "ALL documents), so a document whose resolution would break a rule is rejected by the Model; schema rules (unknown fields, types, invalid unused defaults) "
-              "are the Model's own checks, pinned to the source by the regenerated tables_* theorems. The '<=' direction is proved for fully-resolved documents "
-              "(resolve_asdict) and otherwise covered by the differential: un-mutated valid models must be accepted by every route. The Model is tied to the code by "
-              "exact agreement of accept/reject on ~700 (quick) rule-targeted and structural mutants per run, values placed on/inside/outside each bound."),
-        note=NOTE_COMMON + " The general '<=' (no spurious rejection of arbitrary human-readable documents) is not a theorem: partial."),
+        technique="Lean 4 theorem resolve_ok_iff: the hand-written model of Graph.fromdict accepts a document iff an independent declarative specification (schemaOK, fill, validGraph) accepts it + differential correspondence; the Lean specification is also run directly against the real code on every mutant",
+        text=("Kernel-checked theorems resolve_ok_iff ((exists g, resolve d = ok g) <-> Spec.accepts d) for EVERY document whose mappings have distinct keys (true of every JSON/YAML/Python "
+              "document; counterexamples show the hypothesis is needed only because the Model uses association lists), with resolve_schema, resolve_eq_fill (the resolved graph is the one "
+              "the declarative fill-in rules give), resolve_sound, resolve_complete (no spurious rejection), resolve_rejects, defaults_rules_agree (invalid defaults are rejected even when "
+              "unused), field_tables_agree, sortPulses_eq_spec. Spec.accepts = schemaOK (shape, known fields, defaults valid by the specification's own rules) and fill (fill-in by precedence, "
+              "independent of resolve) and Spec.validGraph (V0-V13). The Model is tied to the code by exact agreement of accept/reject on ~3400 rule-targeted and structural mutants per quick "
+              "run (values on/inside/outside each bound, an exhaustive sweep of every defaults field x boundary value, overlapping-migration variants) through dict/Builder/YAML/JSON routes, "
+              "and the executable Spec.acceptsB is evaluated by the driver on every mutant and compared with the REAL code's verdict in both directions."),
+        note=NOTE_COMMON + " Non-ASCII identifiers are outside the Model; bool is a number as in Python (the specification's verdict on it is not asserted)."),
     "C06": dict(
         category="proof", design_ref="§7 C06",
         technique="Lean 4 theorems (asdict shape/plainness/allowed fields, read_asdict, resolve_asdict fixed point for every valid graph) + differential correspondence",
@@ -186,7 +213,7 @@ CLAIMS = {
         category="proof", design_ref="§7 C15",
         technique="Lean 4 theorems over a hand-written model of rename_demes (validity, index, lookups, inverse for all injective renamings incl. swaps/chains) + differential correspondence",
         text=("Kernel-checked theorems rename_names, rename_numbers_unchanged, rename_structure, rename_data_valid, rename_index, rename_valid, rename_lookup, "
-              "rename_hasName, rename_old_name_gone, rename_unused_name, rename_inverse_ok, rename_inverse for every valid graph and EVERY injective renaming to "
+              "rename_hasName, rename_old_name_gone, rename_unused_name, rename_inverse_ok, rename_inverse, and for the validating entry point renameChecked_ok_iff / _valid / _rejects / _lookup (rename_demes refuses non-identifier or colliding names — repaired defect F23 — and whatever it returns is valid) for every valid graph and EVERY injective renaming to "
               "identifiers (swaps, cycles, chains included), over the Model of Graph.rename_demes after the repair of defect F8. Model tied to the code by exact "
               "comparison of the renamed graph and its name index; lookups, str() and rename-back re-checked on the real objects; thorough tier enumerates all "
               "partial injective maps on small graphs."),
